@@ -25,6 +25,9 @@ func ParseMetadata(rawsdp string, video *codec.VideoMeta, audio *codec.AudioMeta
 	}
 
 	for _, media := range sdp.Media {
+		if len(media.Format) == 0 { // e.g. a non-RTP transport: no payload formats are parsed
+			continue
+		}
 		switch media.Type {
 		case "video":
 			video.Codec = media.Format[0].Name
